@@ -673,6 +673,8 @@ def check_C03(ctx):
     q = ctx.quick()
     mc(ctx, "Engine", S("mc", "MC_Engine.cfg"), S("mc", "MC_Engine.tla"), workers=8)
     mc(ctx, "EngineConc", S("mc", "MC_EngineConc.cfg"), S("mc", "MC_EngineConc.tla"), workers=8)
+    # progress without locks: under per-thread fairness every started call returns, steps touch one thread's private state only
+    mc(ctx, "EngineConcLive", S("mc", "MC_EngineConc_live.cfg"), S("mc", "MC_EngineConc.tla"), workers=8)
     must_violate(ctx, "Engine(Hidden)", S("mc", "MC_Engine_hidden.cfg"), S("mc", "MC_Engine.tla"), "Deterministic")
     must_violate(ctx, "EngineConc(Hidden)", S("mc", "MC_EngineConc_hidden.cfg"), S("mc", "MC_EngineConc.tla"), "Deterministic")
     engine_histories(ctx, 60 if q else 1200, 24, BUNDLED, "bundled")
